@@ -9,7 +9,7 @@ COMMON_ASSUME = [
 PROPS = {
     "C17": {
         "stages": [{"bin": "err"}],
-        "rule": "decision table written from the statement: for every fallible public routine (7 single-input summary statistics + entropy on f64/f32/i32; min/max/argmin/argmax; 8 weighted routines; 10 deviation measures on f64 and i64; kl_divergence / cross_entropy; 5 quantile entry points on i32/N64/f64; pearson_correlation; cov; 5 strategies + GridBuilder) x first-input shapes {(4), (2,3), (3,1,2), (1), (0), (0,3), (3,0), (0,0), (2,0,3)} (+9 more in thorough) x second argument {same shape, same element count other shape, broadcast-compatible, one axis longer, different rank} in two layouts / per-axis weights of right and wrong length on every axis x q lists {valid, single, empty list, one < 0, one > 1, several invalid (first offending one carried), invalid on an empty axis, 1+2^-52, -0.0, +inf} x 3 layouts (8 thorough): expected cell in {Ok, EmptyInput, ShapeMismatch(first, second), InvalidQuantile(q)} or unconstrained (observed and counted, never judged: empty first input AND mismatching second argument for the sum-type routines; cov with zero observations and ddof >= 0; constant data for strategies; a zero-column matrix for GridBuilder). The table is enumerated completely; each cell is one distinct case (counted exactly); a panic in a constrained cell is a violation; weighted_sum / weighted_sum_axis of empty inputs must be zero.",
+        "rule": "decision table written from the statement: for every fallible public routine (7 single-input summary statistics + entropy on f64/f32/i32; min/max/argmin/argmax; 8 weighted routines; 10 deviation measures on f64 and i64; kl_divergence / cross_entropy; 5 quantile entry points on i32/N64/f64; pearson_correlation; cov; 5 strategies + GridBuilder) x first-input shapes {(4), (2,3), (3,1,2), (1), (0), (0,3), (3,0), (0,0), (2,0,3)} (+9 more in thorough) x second argument {same shape, same element count other shape, broadcast-compatible, one axis longer, different rank} in two layouts / per-axis weights of right and wrong length on every axis x q lists {valid, single, empty list, one < 0, one > 1, several invalid (first offending one carried), invalid on an empty axis, 1+2^-52, -0.0, +inf} x 3 layouts (8 thorough): expected cell in {Ok, EmptyInput, ShapeMismatch(first, second), InvalidQuantile(q)} or unconstrained (observed and counted, never judged: empty first input AND mismatching second argument for the sum-type routines; cov with zero observations and ddof >= 0; constant data for strategies; a zero-column matrix for GridBuilder). Second operands of another rank include shapes that are a prefix of / prefixed by the first shape (trailing unit axis appended, last axis dropped). Weight VALUES are varied too (all zero, +1/-1 with zero total, all one): a non-empty input never answers with an error. The table is enumerated completely; each cell is one distinct case (counted exactly); a panic in a constrained cell is a violation; weighted_sum / weighted_sum_axis of empty inputs must be zero.",
         "exhaustive": True,
         "exhaustive_bound": {"quick": "the full table for 9 first-input shapes x 3 layouts", "thorough": "18 first-input shapes x 8 layouts"},
         "assumptions": COMMON_ASSUME + ["combinations the statement does not decide are reported as unconstrained, not judged"],
@@ -17,7 +17,7 @@ PROPS = {
     "C20": {
         "stages": [{"kind": "oracle", "bin": "layout"}],
         "quick_profiles": ["release"],
-        "rule": "differential monitor between the canonical representation (owned, C order, dynamic dimension) and a zoo variant of a logically equal array: layout = random axis permutation x per-axis step in {1,2,3} x direction x padding inside a guarded parent buffer; representation in {view_mut, owned-sliced, ArcArray with a second live handle (which must stay unchanged), CowArray borrowed (the lender must stay unchanged), CowArray owned, static-dimension view (Ix1..Ix3), owned-sliced as dynamic}. Routines: quantile(s)_axis_mut (5 strategies), quantile(s)_mut, get_from_sorted_mut, get_many_from_sorted_mut, partition_mut, min, max, argmin, argmax (index must designate an element equal to the canonical extremum), min/max/argmin/argmax_skipnan, fold / indexed_fold / fold_axis / map_axis_skipnan_mut, quantile_axis_skipnan_mut on i32, i64, u8, N64, f64, Option<i32>: results BIT-IDENTICAL; all 10 deviation measures, mean, weighted_sum, weighted_mean, weighted_sum_axis on i64 with BOTH operands varied independently: identical; histogram counts and GridBuilder<Sqrt|Auto> grids for every observation-matrix layout: identical; float statistics (mean, harmonic/geometric mean, central moment(s), skewness, kurtosis, entropy, weighted sum/mean/var/std, sq_l2/l1/linf, cross-entropy, KL, cov, pearson): both results logged and each judged offline against the exact value with the section-4 bounds (so |A-B| <= 2 tol). distinct = hash of (family, type, shape, layout(s), representation(s), data).",
+        "rule": "differential monitor between the canonical representation (owned, C order, dynamic dimension) and a zoo variant of a logically equal array: layout = random axis permutation x per-axis step in {1,2,3} x direction x padding inside a guarded parent buffer; representation in {view_mut, owned-sliced, ArcArray with a second live handle (which must stay unchanged), CowArray borrowed (the lender must stay unchanged), CowArray owned, static-dimension view (Ix1..Ix3), owned-sliced as dynamic}. Routines: quantile(s)_axis_mut (5 strategies), quantile(s)_mut, get_from_sorted_mut, get_many_from_sorted_mut, partition_mut, min, max, argmin, argmax (index must designate an element equal to the canonical extremum), min/max/argmin/argmax_skipnan, fold / indexed_fold / fold_axis / map_axis_skipnan_mut, quantile_axis_skipnan_mut on i32, i64, u8, N64, f64, Option<i32>: results BIT-IDENTICAL; all 10 deviation measures, mean, weighted_sum, weighted_mean, weighted_sum_axis on i64 with BOTH operands varied independently, and with both operands taken as views of ONE buffer (same or different start, different steps, a square matrix against its transpose) against owned copies: identical; histogram counts and GridBuilder<Sqrt|Auto> grids for every observation-matrix layout: identical; float statistics (mean, harmonic/geometric mean, central moment(s), skewness, kurtosis, entropy, weighted sum/mean/var/std, sq_l2/l1/linf, cross-entropy, KL, cov, pearson): both results logged and each judged offline against the exact value with the section-4 bounds (so |A-B| <= 2 tol). distinct = hash of (family, type, shape, layout(s), representation(s), data).",
         "exhaustive": False,
         "assumptions": COMMON_ASSUME + ["ties may legitimately resolve to different indices: index results are compared through the element they designate"],
     },
@@ -60,14 +60,14 @@ PROPS = {
     },
     "C11": {
         "stages": [{"bin": "hist"}],
-        "rule": "history monitor: a model histogram (map index tuple -> count; the cell of an observation found by a LINEAR scan e_i <= v < e_{i+1} over each axis's sorted distinct edges, independent of the crate's binary search) is updated per accepted insert and compared with the WHOLE counts() array after EVERY add_observation: Ok iff the model finds a cell, counts equal the model everywhere (a rejected insert changed nothing), shape == per-axis bin counts, sum of counts == accepted inserts. Matrix form histogram(): equals the model of its rows for C / F / stepped / reversed / random zoo layouts of the observation matrix and for permuted rows. Exhaustive part: 1 and 2 axes, every subset of edges {0,2,4,6} per axis (zero-bin axes included), every observation in {below, each edge, each midpoint, above}^d fed as one history (each insert = one distinct case). Random part: 1..3 axes, 0..6 unsorted duplicated edges per axis, histories of 1..200 inserts mixing accepted and rejected points, i32 and N64; axes with 60..210 edges driven by local moves, far jumps and rejected points (per-insert comparison), and observation matrices of 4096..9000 rows in C / F / random layouts (matrix form). distinct = hash of (type, edges, history).",
+        "rule": "history monitor: a model histogram (map index tuple -> count; the cell of an observation found by a LINEAR scan e_i <= v < e_{i+1} over each axis's sorted distinct edges, independent of the crate's binary search) is updated per accepted insert and compared with the WHOLE counts() array after EVERY add_observation: Ok iff the model finds a cell, counts equal the model everywhere (a rejected insert changed nothing), shape == per-axis bin counts, sum of counts == accepted inserts. Matrix form histogram(): equals the model of its rows for C / F / stepped / reversed / random zoo layouts of the observation matrix and for permuted rows. Exhaustive part: 1 and 2 axes, every subset of edges {0,2,4,6} per axis (zero-bin axes included), every observation in {below, each edge, each midpoint, above}^d fed as one history (each insert = one distinct case). Every history builds each axis through one of four Edges constructors (From<Vec>, From<Array1>, From<Array1> of an owned stepped slice / of an owned offset+reversed slice of a larger buffer with guard cells). Random part: 1..3 axes, 0..6 unsorted duplicated edges per axis, histories of 1..200 inserts mixing accepted and rejected points, i32 and N64; axes with 60..210 edges driven by local moves, far jumps and rejected points (per-insert comparison), and observation matrices of 4096..9000 rows in C / F / random layouts (matrix form). distinct = hash of (type, edges, history).",
         "exhaustive": True,
         "exhaustive_bound": {"quick": "d <= 2, <= 4 edges per axis, all single observations over the candidate set", "thorough": "same exhaustive part, 1M random histories"},
         "assumptions": COMMON_ASSUME,
     },
     "C12": {
         "stages": [{"bin": "hist"}],
-        "rule": "for each generated 1-D data set (i32, i64, u16, usize, N64; n in {0,1,2,3,5,10,31,100,333,1000,(10^4)}; classes: i*0.1, k/100, 1e6+k*0.01, 1+{0,1,2}eps, heavy ties/zero IQR, sign-crossing, magnitudes 1e+-6, i*0.001, mixed magnitudes; integer: small range, range 10n, wide, 7 levels, rounded normal) and each of the 5 strategies: empty => EmptyInput, constant => Strategy, other rejections must be Strategy and are not allowed when range/n_bins is a positive width (ints: range >= 2n; floats: any non-constant, except FreedmanDiaconis); accepted => first edge == min exactly, last edge > max, last - max <= width (+4ulp(M) floats), all bin widths == bin_width() (ints exactly, floats within 4ulp(M) when width >= 4ulp(M)), every observation has a bin, n_bins() == bins built, a histogram over the GridBuilder grid (1..3 columns, C/F/random layout) counts all n. TERMINATION is a logical-step bound: the strategy is instantiated with a counting element type and from_array / n_bins / build must finish within a budget of element operations derived from n and the expected bin count (a hang becomes a violation independent of machine load). distinct = hash of (type, data bits); non-trivial = n >= 2. Data sets whose own parameters imply > 2*10^5 bins are counted as skipped.",
+        "rule": "for each generated 1-D data set (i32, i64, u16, usize, N64; n in {0,1,2,3,5,10,31,100,333,1000,(10^4)}; classes: i*0.1, k/100, 1e6+k*0.01, 1+{0,1,2}eps, heavy ties/zero IQR, sign-crossing, magnitudes 1e+-6, i*0.001, mixed magnitudes; integer: small range, range 10n, wide, 7 levels, rounded normal) and each of the 5 strategies: empty => EmptyInput, constant => Strategy, other rejections must be Strategy and are not allowed when range/n_bins is a positive width (ints: range >= 2n; floats: any non-constant, except FreedmanDiaconis); accepted => first edge == min exactly, last edge > max, last - max <= width (+4ulp(M) floats), all bin widths == bin_width() (ints exactly, floats within 4ulp(M) when width >= 4ulp(M)), every observation has a bin, n_bins() == bins built, a histogram over the GridBuilder grid (1..3 columns, C/F/random layout) counts all n. TERMINATION is a logical-step bound: the strategy is instantiated with a counting element type and from_array / n_bins / build must finish within a budget of element operations derived from n and the expected bin count (a hang becomes a violation independent of machine load). Section fd_many_bins: a tight cluster plus two far outliers under FreedmanDiaconis / Auto (i32, i64, N64; 7*10^4 .. 1.8*10^5 bins). distinct = hash of (type, data bits); non-trivial = n >= 2. Data sets whose own parameters imply > 2*10^5 bins are counted as skipped.",
         "exhaustive": False,
         "assumptions": COMMON_ASSUME + ["integer data is kept far from the type's limits (stated in the property)", "float geometry is judged with tolerance 4 ulp at magnitude max(|min|, |last edge|)"],
     },
@@ -83,7 +83,7 @@ PROPS = {
                    {"kind": "sanitizer", "tool": "asan", "tiers": ["quick", "thorough"]},
                    {"kind": "sanitizer", "tool": "miri", "tiers": ["thorough"]},
                    {"kind": "sanitizer", "tool": "memcheck", "tiers": ["thorough"]}],
-        "rule": "shadow-buffer monitor: the array is a view (steps, reversed / permuted axes, offset) into a larger parent buffer whose other cells hold guard values; the parent is snapshotted bit for bit before the call and compared after: guard cells identical, every lane holds the same multiset of (unique) cell values, erroring calls change nothing, a second ArcArray handle is unchanged. Routines: partition_mut / get_from_sorted_mut / get_many_from_sorted_mut / quantile_mut / quantiles_mut on one lane of an n-D array (all other lanes must stay bit-identical), quantile_axis_mut / quantiles_axis_mut (valid and invalid q), quantile_axis_skipnan_mut, map_axis_skipnan_mut with a closure that rewrites its lane, remove_nan_mut over all masks up to length 8; element types Tracked (unique ids), f32, f64, Option<u8,i32,i64,N64>; 1..4 dims, every axis, 5 pivot policies. distinct = hash of (routine, shape, axis, layout, data); non-trivial = lane length >= 2.",
+        "rule": "shadow-buffer monitor: the array is a view (steps, reversed / permuted axes, offset) into a larger parent buffer whose other cells hold guard values; the parent is snapshotted bit for bit before the call and compared after: guard cells identical, every lane holds the same multiset of (unique) cell values, erroring calls change nothing, a second ArcArray handle is unchanged. Routines: partition_mut / get_from_sorted_mut / get_many_from_sorted_mut / quantile_mut / quantiles_mut on one lane of an n-D array (all other lanes must stay bit-identical), quantile_axis_mut / quantiles_axis_mut (valid and invalid q), quantile_axis_skipnan_mut, map_axis_skipnan_mut with a closure that rewrites its lane, remove_nan_mut over all masks up to length 8; element types Tracked (unique ids), f32, f64, Option<u8,i32,i64,N64>; 1..4 dims, every axis, 5 pivot policies. Dense request lists (nearly every rank of a long lane, scrambled, several lanes). Bulk requests are handed over as an owned array, a reversed view or a stepped view. Element lifecycle monitor (section owned_elems), with FAULT INJECTION - in a third of its cases the k-th comparison of the element type panics, the call is left by unwinding and the same monitors judge what it leaves behind: the same routines on an element type that owns a resource (Drop, not Copy), every value registered under a unique id in a table of live values: an element dropped twice, or cloned / compared after its drop, is a violation (element_lifecycle); key multisets per lane and guard cells as above. distinct = hash of (routine, shape, axis, layout, data); non-trivial = lane length >= 2.",
         "exhaustive": False,
         "assumptions": COMMON_ASSUME + ["writes outside the parent buffer are invisible to the shadow monitor; they are the business of the ASan / Miri / memcheck stages"],
     },
@@ -101,19 +101,19 @@ PROPS = {
         "stages": [{"bin": "mem"},
                    {"kind": "sanitizer", "tool": "asan", "tiers": ["quick", "thorough"]},
                    {"kind": "sanitizer", "tool": "miri", "tiers": ["thorough"]}],
-        "rule": "reference = the statement's own definition: the harness deletes the missing values from the logical snapshot itself and (a) scans the rest independently, (b) calls the crate's plain routine on an owned contiguous copy of the filtered data. Operations: min/max_skipnan, argmin/argmax_skipnan (index designates a position of the original array holding the value; EmptyInput iff nothing is left), fold_skipnan / visit_skipnan / indexed_fold_skipnan (multiset of (index,) value == filtered multiset), fold_axis_skipnan and map_axis_skipnan_mut (per lane, each lane exactly once, result at the lane's logical index), quantile_axis_skipnan_mut vs quantile_mut on the filtered lane (all 5 strategies, q on / between indices). Types f32, f64, Option<i32,u8,i64,N64>; masks none / all / first-only / last-only / random / ties; 1..3 dims, every axis, zoo layouts, 5 pivot policies. distinct = hash of (type, shape, axis, layout, data bits); non-trivial = >= 2 elements.",
+        "rule": "reference = the statement's own definition: the harness deletes the missing values from the logical snapshot itself and (a) scans the rest independently, (b) calls the crate's plain routine on an owned contiguous copy of the filtered data. Operations: min/max_skipnan, argmin/argmax_skipnan (index designates a position of the original array holding the value; EmptyInput iff nothing is left), fold_skipnan / visit_skipnan / indexed_fold_skipnan (multiset of (index,) value == filtered multiset), fold_axis_skipnan and map_axis_skipnan_mut (per lane, each lane exactly once, result at the lane's logical index), quantile_axis_skipnan_mut vs quantile_mut on the filtered lane (all 5 strategies, q on / between indices). Requests also on the rank grid j/(m-1), (j+.5)/(m-1) of one lane's REMAINING count m; arrays without lanes (a zero-length axis other than the reduced one). Types f32, f64, Option<i32,u8,i64,N64>; masks none / all / first-only / last-only / random / ties; 1..3 dims, every axis, zoo layouts, 5 pivot policies. distinct = hash of (type, shape, axis, layout, data bits); non-trivial = >= 2 elements.",
         "exhaustive": False,
         "assumptions": COMMON_ASSUME,
     },
     "C01": {
         "stages": [{"bin": "quant"}],
-        "rule": "random part: element types i8,u8,i16,i32,i64,u64,usize,N32,N64 (round robin); 1..4 dims, every axis, lane length 1..40 (1-D to 300), zoo layouts (steps, reversed, permuted axes, offset in a guarded parent), static and dynamic dimensionality; contents: tiny alphabets (heavy ties), constant, sorted, reversed, organ pipe, type extremes, wide random; q in {0, 1, k/(N-1) and its float neighbours, (k+.5)/(N-1) and neighbours, up to 8 ulps around, 5e-324, 1-2^-53, uniform}; all five strategies; entry points quantile(s)_axis_mut and quantile(s)_mut; every case executed 3 times under different pivot policies (determinism). Oracle: sort the lane, index pair and fraction in two readings (f64 product and exact rational product, exact dyadic arithmetic), strategy-specific acceptance. distinct = hash of (type, shape, axis, layout, entry, strategy, q bits, data bits), non-trivial = lane length >= 2 and >= 1 q. Exhaustive part: all weak-order patterns of length <= 4 (5 thorough) x q grid x 5 strategies x ALL pivot sequences for i32, u8, N64.",
+        "rule": "random part: element types i8,u8,i16,i32,i64,u64,usize,N32,N64 (round robin); 1..4 dims, every axis, lane length 1..40 (1-D to 300), zoo layouts (steps, reversed, permuted axes, offset in a guarded parent), static and dynamic dimensionality; contents: tiny alphabets (heavy ties), constant, sorted, reversed, organ pipe, type extremes, wide random; q in {0, 1, k/(N-1) and its float neighbours, (k+.5)/(N-1) and neighbours, up to 8 ulps around, 5e-324, 1-2^-53, uniform}; all five strategies; entry points quantile(s)_axis_mut and quantile(s)_mut; every case executed 3 times under different pivot policies (determinism). 3 % of the cases are arrays WITHOUT lanes (a zero-length axis other than the reduced one: the result must be the empty array of the documented shape); bulk request lists also sorted ascending / descending and with several requests inside one rank gap. Oracle: sort the lane, index pair and fraction in two readings (f64 product and exact rational product, exact dyadic arithmetic), strategy-specific acceptance. distinct = hash of (type, shape, axis, layout, entry, strategy, q bits, data bits), non-trivial = lane length >= 2 and >= 1 q. Exhaustive part: all weak-order patterns of length <= 4 (5 thorough) x q grid x 5 strategies x ALL pivot sequences for i32, u8, N64.",
         "exhaustive": False,
         "assumptions": COMMON_ASSUME + ["'(N-1)q' is read either as the f64 product or as the exact rational product; a result matching either reading is accepted", "Linear on 64-bit integers is judged only when |lower|,|higher| < 2^52 (stated in the property)"],
     },
     "C18": {
         "stages": [{"bin": "quant"}, {"kind": "oracle", "bin": "num"}],
-        "rule": "differential monitor between two executions of the real code on equal inputs (fresh embeddings, independent pivot policies): slice j of quantiles_axis_mut / quantiles_mut vs quantile_axis_mut / quantile_mut for q_j (request lists of length 0..32, unordered, with repeats, q sharing / straddling an index, 9 element types, 5 strategies, zoo layouts, every axis); get_many_from_sorted_mut(I)[i] vs get_from_sorted_mut(i) for request lists of length 0..32 on strided views; central_moments(p)[k] vs central_moment(k) BIT FOR BIT for all k <= p <= 10 (f32, f64, zoo layouts); each element of weighted_sum_axis / weighted_mean_axis / weighted_var_axis / weighted_std_axis vs the whole-array routine on an owned copy of that lane (both judged against the exact value by the offline oracle, bit-identical pairs counted). distinct = hash of (type, shape, axis, layout, strategy, q bits / request, data); non-trivial = >= 2 requests on a lane of length >= 2.",
+        "rule": "differential monitor between two executions of the real code on equal inputs (fresh embeddings, independent pivot policies): slice j of quantiles_axis_mut / quantiles_mut vs quantile_axis_mut / quantile_mut for q_j (request lists of length 0..32, unordered, with repeats, q sharing / straddling an index, 9 element types, 5 strategies, zoo layouts, every axis); get_many_from_sorted_mut(I)[i] vs get_from_sorted_mut(i) for request lists of length 0..32 on strided views; central_moments(p)[k] vs central_moment(k) BIT FOR BIT for all k <= p <= 10 (f32, f64, zoo layouts); each element of weighted_sum_axis / weighted_mean_axis / weighted_var_axis / weighted_std_axis vs the whole-array routine on an owned copy of that lane (both judged against the exact value by the offline oracle, bit-identical pairs counted). Request lists also sorted ascending / descending, and dense (every rank of the lane, scrambled); arrays without lanes (shape of the empty result); the per-axis weighted family additionally BIT FOR BIT against the whole-array routine applied to the lane view for mixed-sign weights and for a single effective observation (one non-zero weight, possibly equal to ddof). distinct = hash of (type, shape, axis, layout, strategy, q bits / request, data); non-trivial = >= 2 requests on a lane of length >= 2.",
         "exhaustive": False,
         "assumptions": COMMON_ASSUME,
     },
@@ -125,21 +125,21 @@ PROPS = {
     },
     "C02": {
         "stages": [{"bin": "sel"}],
-        "rule": "exhaustive part: every weak-order pattern of length 1..L (L=7 quick, 8 thorough; strided views and bulk form to smaller L) x every in-range index / every non-empty index subset in 3 presentations x EVERY pivot sequence (enumerated through the pivot hook by depth-first replay); each (pattern, request, pivot sequence) execution with n>=2 is one distinct non-trivial case (counted exactly). Random part: lengths up to 300, heavy ties, strides in {1,2,3,-1,-2,-3}, 6 pivot policies; distinct = hash of (keys, request, layout, pivot log). Oracle: std sort of the snapshot + post-condition + multiset-by-id + guard cells.",
+        "rule": "exhaustive part: every weak-order pattern of length 1..L (L=7 quick, 8 thorough; strided views and bulk form to smaller L) x every in-range index / every non-empty index subset in 3 presentations x EVERY pivot sequence (enumerated through the pivot hook by depth-first replay); each (pattern, request, pivot sequence) execution with n>=2 is one distinct non-trivial case (counted exactly). Random part: lengths up to 300, heavy ties, strides in {1,2,3,-1,-2,-3}, 6 pivot policies; distinct = hash of (keys, request, layout, pivot log). Empty requests on arrays of length 0..11. Every bulk request is handed over in one of three representations of the REQUEST array (owned contiguous, reversed view, every second cell of a larger buffer). Section owned_elems: the same entry points on an element type that owns a resource (Drop, not Copy) under the element lifecycle monitor (no element dropped twice, none cloned or compared after its drop). Oracle: std sort of the snapshot + post-condition + multiset-by-id + guard cells.",
         "exhaustive": True,
         "exhaustive_bound": {"quick": "patterns n<=7 single (n<=5 strided, n<=5 bulk), all pivot sequences", "thorough": "patterns n<=8 single (n<=6 strided, n<=6 bulk), all pivot sequences"},
         "assumptions": COMMON_ASSUME + ["behaviour of a comparison-only generic routine depends only on the weak-order pattern of the input (stated in the property)"],
     },
     "C15": {
         "stages": [{"bin": "sel"}],
-        "rule": "exhaustive part: every weak-order pattern of length 1..L (L=7 quick, 8 thorough) x every pivot position x strides {1,2,3,-1,-2} (strided up to length 6) inside a guarded parent buffer; each (pattern, position, stride) is one distinct case, counted exactly. Random part: lengths up to 500; other element types: i32, u8, N64, the NotNone<i32> wrapper obtained from Option<i32>::remove_nan_mut, and zero-sized elements; distinct = hash of (keys, position, layout). Oracle: rank = #{x < pivot}, position k holds the pivot value, strict left side, >= right side, multiset by id, guards.",
+        "rule": "exhaustive part: every weak-order pattern of length 1..L (L=7 quick, 8 thorough) x every pivot position x strides {1,2,3,-1,-2} (strided up to length 6) inside a guarded parent buffer; each (pattern, position, stride) is one distinct case, counted exactly. Random part: lengths up to 500; other element types: i32, u8, N64, the NotNone<i32> wrapper obtained from Option<i32>::remove_nan_mut,, zero-sized elements, a 48-byte element ordered by one field (plain and strided), an element that owns a resource (Drop, not Copy; with the element lifecycle monitor), i32 in a shared ArcArray with a second live handle and in a CowArray borrowing a view (the other handle / the lender must stay unchanged); distinct = hash of (keys, position, layout). Oracle: rank = #{x < pivot}, position k holds the pivot value, strict left side, >= right side, multiset by id, guards.",
         "exhaustive": True,
         "exhaustive_bound": {"quick": "patterns n<=7", "thorough": "patterns n<=8"},
         "assumptions": COMMON_ASSUME,
     },
     "C16": {
         "stages": [{"bin": "sel"}],
-        "rule": "out-of-range: every weak-order pattern of length 0..L (L=6 quick, 7 thorough) x positions {n, n+1, 2n+3, MAX/2+1, MAX-1, MAX} x EVERY pivot sequence for single selection; bulk requests with an out-of-range member alone / repeated / first / last / mixed; partition on plain, stepped and reversed views; Edges/Bins/Grid with 0..6 edges per axis (1..3 axes), every single out-of-range coordinate and wrong arity. Call histories on one thread: a request (or index) accepted for a longer array must be rejected for a shorter one immediately afterwards, twice in a row; an empty request on an empty array must not panic. In-range: the C02/C15 exhaustive workloads replayed with only the unwind bit observed, plus every in-range Edges/Bins/Grid position. Both build profiles (release; checked = debug assertions + overflow checks). Each (input, position, pivot sequence) is a distinct case, counted exactly.",
+        "rule": "out-of-range: every weak-order pattern of length 0..L (L=6 quick, 7 thorough) x positions {n, n+1, 2n+3, MAX/2+1, MAX-1, MAX} x EVERY pivot sequence for single selection; bulk requests with an out-of-range member alone / repeated / first / last / mixed, each handed over as an owned array, a reversed view and a stepped view of a larger buffer; partition on plain, stepped and reversed views; Edges/Bins/Grid with 0..6 edges per axis (1..3 axes), every single out-of-range coordinate (n, n+1, MAX-k for k <= 9, isize::MAX-1 .. isize::MAX+2, 2^63+n, 2^32, 2^32+1) and wrong arity. Call histories on one thread: a request (or index) accepted for a longer array must be rejected for a shorter one immediately afterwards, twice in a row; an empty request on an empty array must not panic. In-range: the C02/C15 exhaustive workloads replayed with only the unwind bit observed, plus every in-range Edges/Bins/Grid position. Both build profiles (release; checked = debug assertions + overflow checks). Each (input, position, pivot sequence) is a distinct case, counted exactly.",
         "exhaustive": True,
         "exhaustive_bound": {"quick": "patterns n<=6", "thorough": "patterns n<=7"},
         "assumptions": COMMON_ASSUME + ["'panics' is observed as an unwind caught by catch_unwind (both profiles are built with panic=unwind)"],
@@ -217,7 +217,7 @@ MANIFEST_TEXT = {
         "design_ref": "DESIGN.md section 3 C13",
     },
     "C03": {
-        "technique": "runtime monitoring: shadow-buffer monitor (bit snapshot of the parent allocation before/after, guard cells, per-lane multisets of unique cells) around every mutating routine; AddressSanitizer / Miri / memcheck on the same driver for writes outside the buffer",
+        "technique": "runtime monitoring: shadow-buffer monitor (bit snapshot of the parent allocation before/after, guard cells, per-lane multisets of unique cells) around every mutating routine; element lifecycle monitor for resource-owning elements; AddressSanitizer / Miri / memcheck on the same driver for writes outside the buffer",
         "level_text": _EXPL + "what is observed is the raw parent buffer, read by the harness's own index arithmetic, not through ndarray iterators.",
         "level_note": "trusted: the harness's logical-index map (self-checked against ndarray at construction); cells are unique so movement between lanes is visible even among ties",
         "design_ref": "DESIGN.md section 3 C03",
@@ -253,13 +253,13 @@ MANIFEST_TEXT = {
         "design_ref": "DESIGN.md section 3 C19",
     },
     "C02": {
-        "technique": "runtime monitoring: reference-model oracle over executions of the real selection code, with complete enumeration of small inputs and of all pivot sequences via the pivot hook",
+        "technique": "runtime monitoring: reference-model oracle over executions of the real selection code, with complete enumeration of small inputs and of all pivot sequences via the pivot hook; element lifecycle monitor (clone/drop/compare events of a resource-owning element type)",
         "level_text": _EXPL + "for inputs up to the length bound the space (weak-order patterns x requests x pivot sequences) is enumerated completely, which is as strong as monitoring can be for a comparison-only routine; beyond the bound seeded random cases. Not a proof for longer inputs.",
         "level_note": "trusted: std sort as reference, the pivot hook (additive, feature-gated), ndarray indexing; the small-scope argument (behaviour depends only on the weak-order pattern) is the property's own",
         "design_ref": "DESIGN.md section 3 C02",
     },
     "C15": {
-        "technique": "runtime monitoring: post-condition oracle (rank, sides, multiset, guard cells) over exhaustively enumerated small inputs and seeded random inputs",
+        "technique": "runtime monitoring: post-condition oracle (rank, sides, multiset, guard cells) over exhaustively enumerated small inputs and seeded random inputs; element lifecycle monitor and shared-storage observers for other element / ownership kinds",
         "level_text": _EXPL + "all weak-order patterns up to the bound x all pivot positions x five strides are executed; partition_mut is deterministic so this is complete for that scope.",
         "level_note": "trusted: the harness's own index arithmetic for strided views (self-checked against ndarray at construction)",
         "design_ref": "DESIGN.md section 3 C15",
